@@ -115,6 +115,9 @@ func init() {
 	register("C03", "G-PREDS", ruleGPreds)
 	register("C01", "G-PATH", ruleGPath)
 	register("C01", "N-CLIMB", ruleNClimb)
+	register("C01", "N-ATTR", ruleNAttr)
+	register("C01", "N-UNCHECKED", ruleNUnchecked)
+	register("C12", "N-UNCHECKED", ruleNUnchecked)
 	register("C02", "N-CLIMB", ruleNClimb) // path-existence predicates over the following/preceding axes
 	register("C07", "S-RESET", ruleSReset) // a node-set operand is re-armed for every candidate the comparison is evaluated for
 	register("C07", "S-PROP", ruleSProp)
